@@ -15,6 +15,7 @@ import (
 	"database/sql/driver"
 	"errors"
 	"fmt"
+	"math"
 	"reflect"
 	"sort"
 	"strconv"
@@ -2619,6 +2620,11 @@ func checkCase(c Case) (violation string, harnessErr error) {
 }
 
 func checkOnce(c Case) (violation string, harnessErr error) {
+	defer func() {
+		if p := recover(); p != nil { // no read path may panic on an in-domain chain
+			violation, harnessErr = fmt.Sprintf("a read path panicked: %v", p), nil
+		}
+	}()
 	var opts testdb.Options
 	switch c.Config {
 	case "queryfields":
@@ -2812,6 +2818,12 @@ func classify(c Case, r *reference) (bool, []string) {
 	if r.limit > 0 && r.limit > len(r.matched)-r.offset {
 		cl = append(cl, "boundary:limit-beyond-rows")
 	}
+	if r.limit >= math.MaxInt64/2 {
+		cl = append(cl, "boundary:limit-huge")
+	}
+	if r.offset >= math.MaxInt64/2 {
+		cl = append(cl, "boundary:offset-huge")
+	}
 	if r.offset >= 1 {
 		boundary = true
 	}
@@ -2949,6 +2961,7 @@ func TestC15Grid(t *testing.T) {
 		if harness.Thorough() {
 			limits = append(limits, size+3)
 		}
+		limits = append(limits, math.MaxInt64, math.MaxInt64/2) // "no limit" sentinels
 		// offsets: absent, 1..maxOffset, beyond the end
 		offsets := []int{0}
 		for o := 1; o <= maxOffset; o++ {
@@ -2991,7 +3004,7 @@ func TestC15Grid(t *testing.T) {
 		}
 	}
 	evid.Exhaustive(true)
-	evid.Extra("grid", fmt.Sprintf("size 0..%d x batch 1..%d x limit {absent,1..%d} x offset {absent,1..%d,beyond}", maxSize, maxBatch, maxLimit, maxOffset))
+	evid.Extra("grid", fmt.Sprintf("size 0..%d x batch 1..%d x limit {absent,1..%d,MaxInt64,MaxInt64/2} x offset {absent,1..%d,beyond}", maxSize, maxBatch, maxLimit, maxOffset))
 	evid.AddExtra("grid_points", int64(count))
 	t.Logf("enumerated %d grid points", count)
 }
@@ -3134,6 +3147,9 @@ func genCond(rt *rapid.T, maxID int64) Cond {
 	return c
 }
 
+// hugeValues: positive values far beyond any table (math.MaxInt64 is a common "no limit" sentinel).
+var hugeValues = []int{math.MaxInt64, math.MaxInt64 / 2, math.MaxInt64 - 7}
+
 func genCalls(rt *rapid.T, size int) []Call {
 	n := rapid.SampledFrom([]int{0, 1, 1, 2, 2, 3, 4}).Draw(rt, "calls")
 	out := make([]Call, n)
@@ -3141,16 +3157,22 @@ func genCalls(rt *rapid.T, size int) []Call {
 		kind := rapid.SampledFrom([]string{"limit", "offset", "limit", "offset", "clause"}).Draw(rt, "call")
 		if kind == "clause" {
 			out[i] = Call{Kind: kind, N: rapid.IntRange(1, 10).Draw(rt, "clause-limit"), O: rapid.IntRange(0, 4).Draw(rt, "clause-offset")}
+			if rapid.IntRange(0, 5).Draw(rt, "clause-huge") == 0 {
+				out[i].N = rapid.SampledFrom(hugeValues).Draw(rt, "huge-value")
+			}
 			continue
 		}
 		var v int
 		switch rapid.IntRange(0, 5).Draw(rt, "call-shape") {
 		case 0: // cancel
 			v = -rapid.SampledFrom([]int{1, 1, 2, 7}).Draw(rt, "neg")
-		case 1: // large: beyond the table
+		case 1: // large: beyond the table, now and then the largest values an int holds ("no limit" sentinels)
 			v = size + rapid.IntRange(0, 3).Draw(rt, "beyond")
 			if v == 0 {
 				v = 1
+			}
+			if rapid.IntRange(0, 2).Draw(rt, "huge") == 0 {
+				v = rapid.SampledFrom(hugeValues).Draw(rt, "huge-value")
 			}
 		default:
 			v = rapid.IntRange(1, 10).Draw(rt, "pos")
